@@ -149,10 +149,13 @@ Definition w_at_gate (s : wstate) (x : nat) : bool :=
 (* the caller returns when the dispatcher is done; mr.ForEach (waitall = false) re-panics as
    soon as a mapper panicked, mr.MapReduce / MapReduceVoid / MapReduceChan / Finish (waitall =
    true) first wait for the reducer, i.e. for every started mapper *)
+Definition w_cancelled (s : wstate) : bool :=
+  existsb (fun tk => wcancels tk && match wst tk with WRel | WDn => true | _ => false end) (wtasks s).
+
 Definition w_caller_done (waitall : bool) (s : wstate) : bool :=
   match wd s with
   | DDone => true
-  | _ => match wvar s with WMr => wfailed s && negb waitall | WFx => false end
+  | _ => match wvar s with WMr => (wfailed s && negb waitall) || w_cancelled s | WFx => false end
   end.
 
 Definition w_statuses (waitall : bool) (s : wstate) : list (Z * Z) :=
@@ -166,9 +169,15 @@ Definition w_statuses (waitall : bool) (s : wstate) : list (Z * Z) :=
                  | _ => (1, 0)%Z
                  end) (wtasks s).
 
+(* result of the call: 1 = returned normally, 3 = re-panicked with the mapper's panic, 4 = the
+   error given to cancel (the generator never mixes panicking and cancelling items in one
+   run: which of the two the caller reports would depend on their order) *)
 Definition w_results (waitall : bool) (s : wstate) : list (list Z) :=
   [if w_caller_done waitall s
-   then [match wvar s with WMr => if wfailed s then 3%Z else 1%Z | WFx => 1%Z end]
+   then [match wvar s with
+         | WMr => if w_cancelled s then 4%Z else if wfailed s then 3%Z else 1%Z
+         | WFx => 1%Z
+         end]
    else []].
 
 (* ---- WG (WorkerGroup): actor 0 = the caller of Start, actor k+1 = the k-th job invocation ---- *)
@@ -209,7 +218,7 @@ Inductive kase :=
 | KLim (n : nat) (scripts : list (list lop))
 | KTR (n : nat) (scripts : list (list rop))
 | KPL (n : nat) (maxage : Z) (scripts : list (list pop))
-| KWP (v : wvariant) (waitall : bool) (n : nat) (items : list bool)
+| KWP (v : wvariant) (waitall : bool) (n : nat) (items : list wbeh)
 | KWG (n : nat) (items : list bool)
 | KCtor (obj : nat) (n : Z)
 | KErr.     (* the implementation hung / never became quiescent: nothing can be confirmed *)
@@ -446,11 +455,12 @@ Fixpoint wp_scan (n : Z) (l : list ev) (running : Z) (started : list nat) : bool
 
 (* ... and no capacity is lost: every item is eventually run (fx always; mr unless a mapper
    panicked, which stops the dispatching) once the run has been drained *)
-Definition wp_complete (v : wvariant) (items : list bool) (l : list ev) : bool :=
+Definition wp_complete (v : wvariant) (items : list wbeh) (l : list ev) : bool :=
   let ended := length (filter (fun e => (ek e =? 2)%Z) l) in
   match v with
   | WFx => Nat.eqb ended (length items)
-  | WMr => if existsb (fun b => b) items then true else Nat.eqb ended (length items)
+  | WMr => if existsb (fun b => match b with BRet => false | _ => true end) items then true
+           else Nat.eqb ended (length items)
   end.
 
 (* WG: exactly n job invocations once the run has been drained *)
